@@ -19,6 +19,7 @@ type opVal struct {
 	Field any             // Go value when representable as a point field; fieldOK says so
 	FieldOK bool
 	IsLit bool // Node() is a plain literal (for the load-time zero-divisor rule)
+	Comp  func() *rt.Node // the same value produced by a computation instead of a literal (slice, load_json), or nil
 }
 
 func c02Values() []opVal {
@@ -55,6 +56,34 @@ func c02Values() []opVal {
 		lit(`{"a":nil}`, func() *rt.Node { return rt.Map(rt.Str("a"), rt.Nil()) }, nil, false),
 		lit(`{"b":nil}`, func() *rt.Node { return rt.Map(rt.Str("b"), rt.Nil()) }, nil, false),
 	}
+	// computed spellings: the same value, but not built by a literal
+	tail := func(n *rt.Node) func() *rt.Node {
+		return func() *rt.Node { return rt.Slice(n, rt.Int(1), nil, nil, false) }
+	}
+	for k := range vals {
+		switch vals[k].Name {
+		case "[]":
+			vals[k].Comp = tail(rt.List(rt.Int(7)))
+		case "[1]":
+			vals[k].Comp = tail(rt.List(rt.Int(7), rt.Int(1)))
+		case `["a"]`:
+			vals[k].Comp = func() *rt.Node { return rt.Call("load_json", rt.Str(`["a"]`)) }
+		case "{}":
+			vals[k].Comp = func() *rt.Node { return rt.Call("load_json", rt.Str(`{}`)) }
+		case `{"a":nil}`:
+			vals[k].Comp = func() *rt.Node { return rt.Call("load_json", rt.Str(`{"a":null}`)) }
+		case `""`:
+			vals[k].Comp = tail(rt.Str("x"))
+		case `"ab"`:
+			vals[k].Comp = tail(rt.Str("xab"))
+		case "nil":
+			vals[k].Comp = func() *rt.Node { return rt.Call("load_json", rt.Str(`null`)) }
+		case "2.0":
+			vals[k].Comp = func() *rt.Node { return rt.Call("load_json", rt.Str(`2`)) }
+		case "true":
+			vals[k].Comp = func() *rt.Node { return rt.Call("load_json", rt.Str(`true`)) }
+		}
+	}
 	return vals
 }
 
@@ -67,9 +96,12 @@ const (
 	srcVar
 	srcField
 	srcRetyped // a point field that held a value of another type and was overwritten by the script
+	srcCompL  // variables; the left operand is produced by a computation (slice, load_json) instead of a literal
+	srcCompR  // ... the right operand
+	srcCompLR // ... both
 )
 
-var srcNames = []string{"literal", "variable", "field", "re-typed field"}
+var srcNames = []string{"literal", "variable", "field", "re-typed field", "computed left", "computed right", "computed both"}
 
 type c02Case struct {
 	Form string `json:"form"` // bin | asg | un | tree
@@ -100,6 +132,22 @@ func c02Build(c c02Case, vals []opVal) (p *Prog, expectLoadErr bool, ok bool) {
 		}
 	case srcVar:
 		prelude = append(prelude, rt.Assign("=", rt.Id("x"), lv.Node()), rt.Assign("=", rt.Id("y"), rv.Node()))
+		le, re = rt.Id("x"), rt.Id("y")
+	case srcCompL, srcCompR, srcCompLR:
+		ln, rn := lv.Node(), rv.Node()
+		if c.Src != srcCompR {
+			if lv.Comp == nil {
+				return nil, false, false
+			}
+			ln = lv.Comp()
+		}
+		if c.Src != srcCompL && c.Form != "un" {
+			if rv.Comp == nil {
+				return nil, false, false
+			}
+			rn = rv.Comp()
+		}
+		prelude = append(prelude, rt.Assign("=", rt.Id("x"), ln), rt.Assign("=", rt.Id("y"), rn))
 		le, re = rt.Id("x"), rt.Id("y")
 	case srcField:
 		if !lv.FieldOK || (c.Form != "un" && !rv.FieldOK) {
@@ -430,7 +478,7 @@ func c02Run(w *run.Worker) {
 	c02Mutating(w)
 	c02Once(w)
 	// (A) the complete operator table
-	for src := srcLit; src <= srcRetyped; src++ {
+	for src := srcLit; src <= srcCompLR; src++ {
 		for _, op := range c02BinOps {
 			for l := range vals {
 				for r := range vals {
@@ -505,7 +553,7 @@ func init() {
 		ID:    "C02",
 		Level: "model_checking",
 		Rule: "(A) every operator (14 binary incl. in/&&/||, 5 compound assignments on a variable, a list element and a nested map element, 3 unary) x every ordered pair of a 33-value set covering all operand classes (incl. the floats +-2^63 next to the int64 extremes) " +
-			"x operand source {literal, variable, point field, point field that held another type and was overwritten by add_key}; (B) every expression tree with <=2 (quick; 3 with 2 atoms) / <=3 (thorough, 6 atoms) binary operators over 8 atoms with every leaf wrapped in the probe; " +
+			"x operand source {literal, variable, point field, point field that held another type and was overwritten by add_key, variables whose left / right / both values were produced by a computation (a slice, load_json) instead of a literal: empty and one-element lists, maps, strings, nil, true, 2.0}; (B) every expression tree with <=2 (quick; 3 with 2 atoms) / <=3 (thorough, 6 atoms) binary operators over 8 atoms with every leaf wrapped in the probe; " +
 			"(C) operands whose evaluation (a grok capture) rewrites the key the other operand reads, on either side of 7 operators, plain, compound and nested; each program is run on the real engine and on the reference interpreter; distinct = distinct real outcomes (trace, point, error flag)",
 		Assumptions: []string{
 			"pinned cells (bool acts as 0/1, deep equality of collections, RHS of an assignment evaluated before index keys) follow the repository's tests and both interpreters",
